@@ -262,6 +262,7 @@ class Runner:
         self.scn = scn
         self.mode = mode
         self.opts = opts or {}
+        self.live = {}     # run id -> image of the answer a suspended run is standing at
         self.frozen = []   # (run id, values returned by get_value at an answer of a run that has ended, image when it ended)
         self.saved = {}    # run id -> [(values returned by get_value at an answer, their image at that time, to_python image)]
         self.qargs = {}    # run id -> the goal's argument terms as built (raw functors with variables inside)
@@ -309,10 +310,18 @@ class Runner:
         self.built[op["r"]] = []
         if self.opts.get("check_nlog"):
             del self.nstate.log[:]     # the specification logs per run; one run at a time in these families
-        self.q[op["r"]] = [yp.query(goal["n"], args)]
+        if self.opts.get("md") and goal["n"] in self.scn.get("facts_only", ()):
+            # the facts-only entry point of the public API (what compiled code written by hand calls)
+            # (called when the consumer's loop starts, as in `for _ in yp.match_dynamic(...)` inside a generator)
+            def lazy(yp=yp, name=goal["n"], args=args):
+                yield from yp.match_dynamic(yp.atom(name), args)
+            self.q[op["r"]] = [lazy()]
+        else:
+            self.q[op["r"]] = [yp.query(goal["n"], args)]
 
     def one_next(self, r):
         """returns the observation of next() on run r"""
+        self.live.pop(r, None)
         try:
             next(self.q[r][0])
         except StopIteration:
@@ -326,6 +335,7 @@ class Runner:
                 return {"k": "raised", "stale": self.check_saved(r)}
             raise
         o = {"k": "answer", "ans": project_tuple(self.qv[r])}
+        self.live[r] = o["ans"]
         if self.opts.get("c15", True):
             # what the public accessors return at this answer (a consumer reads answers through
             # get_value / to_python, so the replay does too)
@@ -401,7 +411,20 @@ class Runner:
                 bad.append({"run": r, "when_the_run_ended": img, "now": now})
         return bad
 
+    def check_live(self):
+        """the answer a suspended query is standing at does not change while other things run"""
+        bad = []
+        for r, img in self.live.items():
+            try:
+                now = project_tuple(self.qv[r])
+            except (CyclicBinding, RecursionError):
+                now = "cyclic"
+            if now != img:
+                bad.append({"run": r, "at_its_answer": img, "now": now})
+        return bad
+
     def close(self, r, how):
+        self.live.pop(r, None)
         cell = self.q[r]
         if how == "close":
             cell[0].close()
@@ -520,8 +543,9 @@ class Runner:
             return {"k": "ok", "stale": self.check_saved(op["r"])}
         if k == "solve" and op.get("via"):
             return self.solve_evalb(op)
-        if k == "solve":
-            self.start_query(op)
+        if k in ("solve", "rest"):
+            if k == "solve":
+                self.start_query(op)
             r = op["r"]
             answers = []
             gvs, pys = [], []
